@@ -348,3 +348,17 @@ Proof.
          | |- forallb is_xml_char ?v = true => apply H; eapply lookup_in; eassumption
          end.
 Qed.
+
+(* a style= reference is only written for a style that exists in the head *)
+Theorem style_refs_resolve : forall content ids v,
+  In (lit "style", v) (recreate_style content ids) -> existsb (str_eqb v) ids = true.
+Proof.
+  intros content ids v H. unfold recreate_style in H.
+  repeat (apply in_app_iff in H; destruct H as [H|H]);
+    repeat match type of H with
+           | In _ (match ?x with _ => _ end) => destruct x eqn:?
+           | In _ (if ?b then _ else _) => destruct b eqn:?
+           end;
+    try (destruct H as [H|[]]; inversion H; subst; assumption);
+    try (destruct H as [H|[]]; discriminate H); try destruct H.
+Qed.
